@@ -1078,6 +1078,11 @@ func (d *Pegnetd) applyTransactionBatch(
 				rates[tx.Conversion],
 				averages[tx.Conversion])
 			if err != nil {
+				if currentHeight >= config.V20HeightActivation {
+					// The batch is only considered once: record it as rejected instead of
+					// leaving it pending forever.
+					return pegnet.ConversionFailedError
+				}
 				return nil
 			}
 		} else {
